@@ -178,7 +178,7 @@ def showRFault (b : Both) (evs : List Event) (times : List Nat) : String :=
   let j := String.intercalate ","
   let cfgs := j ([1, 2, 3, 4].map fun k => faultClass (configureGets s) k)
   let its := j ([1, 2, 3, 2 * D, 2 * D + 1].map fun k => faultClass (iterateGets s) k)
-  let head := s!"rfault cc1={faultClass 1 1} dc1={faultClass 1 1} cc2={faultClass 1 2} dc2={faultClass 1 2} cfg=[{cfgs}] iter=[{its}]"
+  let head := s!"rfault cc1={faultClass 1 1} dc1={faultClass 1 1} cc2={faultClass 1 2} dc2={faultClass 1 2} cfg=[{cfgs}] iter=[{its}] find=[{j ([1, 2 * D, 2 * D + 1].map fun k => faultClass (iterateGets s) k)}]"
   let per := dids.map fun d =>
     let n := (evs.filter (fun e => e.doc.id == d)).length
     let sh := (alGet b.sh d).getD {}
